@@ -68,6 +68,19 @@ fn parse_embedded<E: EndianParse, P: ParseAt + Debug>(e: E, class: Class, pre: &
         }
         (l, n, f, x) => return Err(format!("{}: a table over {} bytes (entry size {}): last() = {:?}, count() = {}, nth(0) = {:?}, nth(1) = {:?}", name, ragged.len(), abi_size, l, n, f, x)),
     }
+    // nth() on a PARTLY CONSUMED iterator counts from the cursor: over two copies of the entry, next() then nth(0) is the
+    // second copy and the iterator is then exhausted
+    let mut twice = body.to_vec();
+    twice.extend_from_slice(body);
+    let t3 = ParsingTable::<E, P>::new(e, class, &twice);
+    let mut it3 = t3.iter();
+    match (it3.next(), it3.nth(0), it3.next(), t3.iter().skip(1).count()) {
+        (Some(a), Some(b), None, 1) => {
+            ok(&a).map_err(|s| format!("{} via next() on a two-entry table: {}", name, s))?;
+            ok(&b).map_err(|s| format!("{} via next() then nth(0) on a two-entry table: {}", name, s))?;
+        }
+        (a, b, c3, n) => return Err(format!("{}: two-entry table: next() = {:?}, then nth(0) = {:?}, then next() = {:?}; skip(1).count() = {}", name, a, b, c3, n)),
+    }
     // one byte short: must fail
     if abi_size > 0 {
         let mut o2 = pre.len();
@@ -513,7 +526,7 @@ pub fn property() -> Property {
     Property {
         id: "C02",
         level: "exploration",
-        rule: "struct: cases are (one of 18 structure types, class, byte order, fixed or run-time spec, a field-value assignment with boundary/top-bit/per-byte-distinct/raw values, embedding offset and padding); the independent ELF writer encodes the values per the gABI tables and parse_at must return exactly them (u32 fields zero-extended, d_tag and ELF32 r_addend sign-extended, r_info split by the ELF32/ELF64 macros), advance by exactly the ABI size, agree with size_for, ParsingTable::get, ParsingIterator (also last/count/nth on a table that ends in a partial entry), and for the file header with parse_ident+parse_tail, ElfBytes.ehdr and ElfStream.ehdr; one byte short must fail. links: the crate-private link fields vd_aux/vd_next/vda_next/vn_aux/vn_next/vna_next observed through where VerDefIterator/VerNeedIterator go. nhdr: one note record with generated n_namesz/n_descsz/n_type decoded through NoteIterator (typed GNU forms only from a full descriptor). versym_use: a one-record .gnu.version_r/.gnu.version_d and 1..4 versym words index|hidden<<15 of that one version, queried in a generated order with repeats on one table handle: get_requirement/get_definition resolve by the low 15 bits and report the queried word's own bit 15 as hidden. accessors: st_bind/st_symtype/st_vis/is_undefined and VersionIndex index/hidden/local/global exhaustively over 2^16 values. Non-trivial (struct): some field has its top bit set and all same-width fields hold pairwise different values; (links): non-contiguous placement.",
+        rule: "struct: cases are (one of 18 structure types, class, byte order, fixed or run-time spec, a field-value assignment with boundary/top-bit/per-byte-distinct/raw values, embedding offset and padding); the independent ELF writer encodes the values per the gABI tables and parse_at must return exactly them (u32 fields zero-extended, d_tag and ELF32 r_addend sign-extended, r_info split by the ELF32/ELF64 macros), advance by exactly the ABI size, agree with size_for, ParsingTable::get, ParsingIterator (also last/count/nth on a table that ends in a partial entry, and next-then-nth on a two-entry table), and for the file header with parse_ident+parse_tail, ElfBytes.ehdr and ElfStream.ehdr; one byte short must fail. links: the crate-private link fields vd_aux/vd_next/vda_next/vn_aux/vn_next/vna_next observed through where VerDefIterator/VerNeedIterator go. nhdr: one note record with generated n_namesz/n_descsz/n_type decoded through NoteIterator (typed GNU forms only from a full descriptor). versym_use: a one-record .gnu.version_r/.gnu.version_d and 1..4 versym words index|hidden<<15 of that one version, queried in a generated order with repeats on one table handle: get_requirement/get_definition resolve by the low 15 bits and report the queried word's own bit 15 as hidden. accessors: st_bind/st_symtype/st_vis/is_undefined and VersionIndex index/hidden/local/global exhaustively over 2^16 values. Non-trivial (struct): some field has its top bit set and all same-width fields hold pairwise different values; (links): non-contiguous placement.",
         assumptions: &["the ELF writer's layout equals <elf.h> (checked at start-up against reference/struct_layout.tsv)", "VerDef/VerNeed records are generated with version 1 only (other versions are outside the statement)"],
         subs: vec![Sub::new("struct", oracle_struct, 200, 1_000_000, 40_000_000), Sub::new("links", oracle_links, 320, 200_000, 5_000_000), Sub::new("nhdr", oracle_nhdr, 80, 200_000, 5_000_000), Sub::new("versym_use", oracle_versym_use, 40, 100_000, 3_000_000), Sub::enumerated("accessors", oracle_accessors, enum_accessors, true)],
         extras: vec![crate::fuzz::c02_choice],
